@@ -3,6 +3,7 @@ pub mod c01;
 pub mod c02;
 pub mod c04;
 pub mod c09;
+pub mod c10;
 pub mod c18;
 pub mod lc;
 
@@ -10,6 +11,7 @@ pub fn get(id: &str, tier: Tier) -> Option<PropertyDef> {
     match id {
         "C01" => Some(c01::def(tier)),
         "C09" => Some(c09::def(tier)),
+        "C10" => Some(c10::def(tier)),
         "C18" => Some(c18::def(tier)),
         "C02" => Some(c02::def(tier)),
         "C04" => Some(c04::def(tier)),
